@@ -117,6 +117,7 @@ func specFromBytes(p *provider) *synth.Stream {
 		b.ExtraCL = []int{0, 1, 4, 19}[p.pick(4)]
 		b.FreqSort = p.pick(2) == 0
 		b.Fork = []int{0, 0, 3, 6, 8, 10, 12, 13}[p.pick(8)]
+		b.Alt258 = p.pick(4) == 0
 		if p.pick(16) == 0 {
 			b.Rep = 1 + p.byte()
 			if b.N > 8 {
